@@ -18,6 +18,11 @@ import (
 // rsearch is E1: explicit-state breadth-first search over event sequences, every transition executed on a fresh
 // real rules.RulesEventReceiver (replay of the path + 1 event) in lock-step with the reference model.
 type rsearch struct {
+	// warmup (optional): events driven into the validator before Reset(); the search then starts from the reused
+	// instance ("start from non-initial states"). The model always starts fresh. A rejected warm-up event is fine
+	// (an aborted document followed by Reset is a legitimate history).
+	warmup       []ev.E
+	tag          string // prefix for violation signatures of this search (e.g. "after-reset:")
 	prefix       []ev.E
 	alphabet     []ev.E
 	depth        int
@@ -34,6 +39,7 @@ var rulesKeyOpt = statekey.Options{Skip: map[string]bool{"config": true, "receiv
 var rulesKeyOptFull = statekey.Options{Skip: map[string]bool{"config": true, "receiver": true}}
 
 type rwitness struct {
+	Warmup []ev.E `json:"warmup_then_reset,omitempty"`
 	Events []ev.E `json:"events"` // accepted prefix followed by the deciding event
 	Config map[string]uint64 `json:"config,omitempty"`
 }
@@ -49,6 +55,11 @@ func (s *rsearch) build(path []uint8) (*rules.RulesEventReceiver, *ev.Recorder, 
 	rec := &ev.Recorder{}
 	r := rules.NewRules(rec, s.newConfig())
 	m := rulesmodel.New(s.mcfg)
+	if s.warmup != nil {
+		ev.TryDriveAll(r, s.warmup)
+		r.Reset()
+		rec.Reset()
+	}
 	for _, e := range s.prefix {
 		ev.Drive(r, e)
 		m.Step(e)
@@ -124,21 +135,21 @@ func (s *rsearch) run(c *fx.Ctx) {
 				}
 				if s.checkVerdict {
 					if err == nil && mv == rulesmodel.Reject {
-						c.Violation(fmt.Sprintf("accepts-invalid(%s):%s@%s", m.Reason, evClass(e), ctxName),
+						c.Violation(s.tag+fmt.Sprintf("accepts-invalid(%s):%s@%s", m.Reason, evClass(e), ctxName),
 							fmt.Sprintf("validator ACCEPTS %s after [%s] but the document is not well-formed there", e.Key(), ev.Join(s.events(cur.path, -1))),
-							rwitness{Events: s.events(cur.path, ai)})
+							rwitness{Warmup: s.warmup, Events: s.events(cur.path, ai)})
 					}
 					if err != nil && mv == rulesmodel.Accept {
-						c.Violation(fmt.Sprintf("rejects-valid:%s@%s", evClass(e), ctxName),
+						c.Violation(s.tag+fmt.Sprintf("rejects-valid:%s@%s", evClass(e), ctxName),
 							fmt.Sprintf("validator REJECTS %s after [%s] (%v) but the sequence is a well-formed prefix", e.Key(), ev.Join(s.events(cur.path, -1)), err),
-							rwitness{Events: s.events(cur.path, ai)})
+							rwitness{Warmup: s.warmup, Events: s.events(cur.path, ai)})
 					}
 				}
 				if s.checkPass && err == nil {
 					if msg := passThroughDiff(e, rec.Events[before:]); msg != "" {
-						c.Violation(fmt.Sprintf("passthrough:%s@%s", evClass(e), ctxName),
+						c.Violation(s.tag+fmt.Sprintf("passthrough:%s@%s", evClass(e), ctxName),
 							fmt.Sprintf("after accepted %s (prefix [%s]) next receiver got %s", e.Key(), ev.Join(s.events(cur.path, -1)), msg),
-							rwitness{Events: s.events(cur.path, ai)})
+							rwitness{Warmup: s.warmup, Events: s.events(cur.path, ai)})
 					}
 					if count {
 						c.Distinct("nontrivial", "pass:"+evClass(e)+"@"+ctxName)
@@ -248,6 +259,11 @@ func replayRules(chkVerdict, chkPass bool, mcfg rulesmodel.Config) func(json.Raw
 		applyRuleLimits(cfg, w.Config)
 		r := rules.NewRules(rec, cfg)
 		m := rulesmodel.New(mcfg)
+		if w.Warmup != nil {
+			ev.TryDriveAll(r, w.Warmup)
+			r.Reset()
+			rec.Reset()
+		}
 		for i, e := range w.Events[:len(w.Events)-1] {
 			if err := ev.TryDrive(r, e); err != nil {
 				return fmt.Sprintf("prefix event %d (%s) rejected: %v", i, e.Key(), err)
